@@ -393,6 +393,12 @@ theorem events_spec (cfg : Cfg) (n : Node) (f : Filter) (fromB toB : Nat) (tok :
 
 /-! ### Following the tokens -/
 
+theorem wake_live (cfg : Cfg) (n : Node) (h : n.initErr = none) : wake cfg n = n := by
+  unfold wake
+  split
+  · rfl
+  · rename_i e he; rw [h] at he; cases he
+
 theorem collect_spec (cfg : Cfg) (f : Filter) (fromB toB chunk limit latest : Nat) (hW : 1 ≤ cfg.W) (hchunk : 1 ≤ chunk) :
     ∀ (fuel : Nat) (n : Node) (tok : Option Token),
       n.chain.length = latest + 1 → ChainWF n.chain → Servable cfg n (min toB latest) → CacheGood cfg n n.cache →
@@ -408,7 +414,7 @@ theorem collect_spec (cfg : Cfg) (f : Filter) (fromB toB chunk limit latest : Na
   | succ fuel ih =>
     intro n tok hlen hwf hs hc hfl hskip hfuel
     unfold collect
-    simp only [query]
+    simp only [apiEvents, wake_live cfg n hs.live, query]
     obtain ⟨hpost, hcg⟩ := events_spec cfg n f fromB toB tok chunk limit latest hW hlen hwf hs hc hfl hskip
     revert hpost
     cases hr : (events cfg n f fromB toB tok chunk limit).1 with
